@@ -245,9 +245,10 @@ func ParseDictionary(s string, f func(key, val, param string)) (ok bool) {
 		if len(s) == 0 {
 			break
 		}
-		if s[0] == ',' {
-			s = s[1:]
+		if s[0] != ',' {
+			return false
 		}
+		s = s[1:]
 		s = s[countLeftWhitespace(s):]
 		if len(s) == 0 {
 			return false
